@@ -493,4 +493,60 @@ theorem exists_bound (l : List Nat) (f : Nat → Nat) : ∃ N, ∀ x ∈ l, f x 
     · exact Nat.le_max_left _ _
     · exact Nat.le_trans (hN x hx) (Nat.le_max_right _ _)
 
+/-! ### output_tasks / input_tasks and the operations that consult them -/
+
+theorem mem_outputNodes {g : DiGraph} {x : Nat} :
+    x ∈ g.outputNodes ↔ x ∈ g.nodes ∧ ∀ y, (x, y) ∉ g.edges := by
+  unfold outputNodes
+  simp only [List.mem_filter, List.isEmpty_iff]
+  constructor
+  · rintro ⟨hx, hs⟩
+    refine ⟨hx, fun y hy => ?_⟩
+    have := mem_succOf.mpr hy
+    rw [hs] at this; cases this
+  · rintro ⟨hx, hs⟩
+    refine ⟨hx, ?_⟩
+    cases h : g.succOf x with
+    | nil => rfl
+    | cons y ys => exact absurd (mem_succOf.mp (by rw [h]; simp)) (hs y)
+
+theorem mem_inputNodes {g : DiGraph} {x : Nat} :
+    x ∈ g.inputNodes ↔ x ∈ g.nodes ∧ ∀ y, (y, x) ∉ g.edges := by
+  unfold inputNodes
+  simp only [List.mem_filter, List.isEmpty_iff]
+  constructor
+  · rintro ⟨hx, hs⟩
+    refine ⟨hx, fun y hy => ?_⟩
+    have := mem_predOf.mpr hy
+    rw [hs] at this; cases this
+  · rintro ⟨hx, hs⟩
+    refine ⟨hx, ?_⟩
+    cases h : g.predOf x with
+    | nil => rfl
+    | cons y ys => exact absurd (mem_predOf.mp (by rw [h]; simp)) (hs y)
+
+/-- The connecting edges of `insert_workflow` only join the given outputs to the given inputs. -/
+theorem connectEdges_endpoints {outs ins : List Nat} {es : List (Nat × Nat)}
+    (h : connectEdges outs ins = .ok es) : ∀ e ∈ es, e.1 ∈ outs ∧ e.2 ∈ ins := by
+  unfold connectEdges at h
+  split at h
+  · simp only [Except.ok.injEq] at h
+    subst h
+    intro e he
+    obtain ⟨p, hp, rfl⟩ := List.mem_map.mp he
+    have := List.of_mem_zip (a := p.1) (b := p.2) hp
+    exact ⟨this.2, this.1⟩
+  · split at h
+    · simp only [Except.ok.injEq] at h
+      subst h
+      intro e he
+      obtain ⟨o, ho, rfl⟩ := List.mem_map.mp he
+      exact ⟨ho, by simp⟩
+    · simp only [Except.ok.injEq] at h
+      subst h
+      intro e he
+      obtain ⟨i, hi, rfl⟩ := List.mem_map.mp he
+      exact ⟨by simp, hi⟩
+    · cases h
+
 end Pharmpy.C17
